@@ -841,3 +841,139 @@ def check_C12(ctx):
                  {"Base.v", "Sync.v", "SyncProofs.v", "Decor.v", "DecorProofs.v", "Container.v", "ContainerProofs.v", "Props/C12.v"},
                  nontrivial=lambda case, frames: any(" DIST_COLLECTED " in l and l.count(",") >= 2 for l in case["trace"]),
                  fams=[("frames", 0.5, True), ("sched", 0.5, True)])
+
+
+# ---------------------------------------------------------------- line-diff families (proxy, fmt)
+def diff_check(ctx, fam, n_quick, n_thorough, deps, monitor=None, classify=None):
+    if not common_setup(ctx, deps):
+        return
+    found = False
+    runs = []
+    if ctx.tier == "quick":
+        runs.append(ctx.run_family(fam, n_quick))
+    else:
+        for i in range(8):
+            runs.append(ctx.run_family(fam, n_thorough // 8, seed=ctx.seed * 1000 + i))
+    sigs = set()
+    for run in runs:
+        if run["rc"] != 0:
+            ctx.add_violation("implementation run failed (panic or hang): " + run["log"][-1200:], fam + "-run-failed",
+                              {"family": fam, "run_seed": run["seed"], "n": run["n"], "log": run["log"][-3000:]})
+            found = True
+            continue
+        d = run["dir"]
+        impl = group_obs(read_lines(os.path.join(d, "impl.txt")))
+        model = group_obs(read_lines(os.path.join(d, "model.txt")))
+        cases = {}
+        cur = None
+        for l in read_lines(os.path.join(d, "cases.txt")):
+            f = l.split()
+            if f and f[0] in ("P", "Z", "Q", "T", "V", "E"):
+                cur = int(f[1]); cases[cur] = [l]
+            elif cur is not None:
+                cases[cur].append(l)
+        for k in sorted(cases):
+            ctx.cov["evaluations"] += 1
+            ctx.cov["traces_validated_against_impl"] += 1
+            ctx.distinct(tuple(cases[k][0].split()[:1] + cases[k][0].split()[2:]))
+            if k < 3:
+                ctx.sample({"case": cases[k], "impl": impl.get(k, [])})
+            mon = monitor(cases[k], impl.get(k, [])) if monitor else None
+            if mon and mon[1] not in sigs:
+                sigs.add(mon[1])
+                ctx.add_violation(mon[0], mon[1], {"family": fam, "run_seed": run["seed"], "n": run["n"], "k": k,
+                                                   "case": cases[k], "impl": impl.get(k), "model": model.get(k)})
+                found = True
+            elif impl.get(k, []) != model.get(k, []):
+                sig = fam + "-mismatch" + ("-" + classify(cases[k]) if classify else "")
+                if sig not in sigs:
+                    sigs.add(sig)
+                    ctx.add_violation("implementation and model disagree: impl %s / model %s" % (impl.get(k), model.get(k)), sig,
+                                      {"family": fam, "run_seed": run["seed"], "n": run["n"], "k": k, "case": cases[k],
+                                       "impl": impl.get(k), "model": model.get(k)})
+                found = True
+    report_broken_obligations(ctx, found)
+
+
+def c19_monitor(case, obs):
+    """transparency and accounting, independent of the model"""
+    hdr = case[0].split()
+    is_reader, has_close, has_fast, ewma, total = hdr[2] == "1", hdr[3] == "1", hdr[4] == "1", int(hdr[5]), int(hdr[6])
+    calls = [l.split() for l in case[1:] if l.startswith("c ")]
+    rows = [l.split() for l in obs]
+    if not rows:
+        return None
+    if rows[0][2] == "offers" and (rows[0][3] == "1") != has_fast:
+        return ("proxy offers the fast path: %s, wrapped value has it: %s" % (rows[0][3], has_fast), "fast-path-mismatch")
+    cur = 0
+    capped = total > 0
+    for c, r in zip(calls, rows[1:]):
+        if "REFUSED" in r or "NEGDUR" in r:
+            return ("bad observation %s" % r, "proxy-bad-observation")
+        n, err, fwd, bcur, data = int(r[2]), int(r[3]), r[4] == "1", int(r[5]), r[6] == "1"
+        if c[1] == "T":
+            wn, werr = int(c[3]), int(c[4])
+            if (n, err) != (wn, werr) or not fwd:
+                return ("transfer returned (%d, err %d), the wrapped value returned (%d, err %d)" % (n, err, wn, werr), "not-transparent")
+            if not data:
+                return ("data was altered in transit", "data-altered")
+            cur = cur + wn
+            if capped and cur >= total:
+                cur = total
+            if bcur != cur:
+                return ("bar is at %d after transfers that sum (capped) to %d" % (bcur, cur), "bytes-not-accounted")
+            smp = [int(r[i + 1]) for i in range(len(r) - 1) if r[i] == "S"]
+            if ewma >= 0 and not (capped and False) and smp != [wn] and not (capped and bcur == total and smp == []):
+                return ("moving-average decorators received %s for a transfer of %d bytes" % (smp, wn), "sample-missing")
+        else:
+            werr = int(c[2])
+            if fwd != has_close or (has_close and err != werr) or (not has_close and err != 0):
+                return ("Close: forwarded=%s err=%d, wrapped value has Close=%s and returns %d" % (fwd, err, has_close, werr), "close-not-forwarded")
+    return None
+
+
+@check
+def check_C19(ctx):
+    ctx.cov["rule"] = ("case = a scripted wrapped reader or writer (with/without Close, with/without WriteTo/ReadFrom), a bar with "
+                       "known / zero / negative total and 0-3-deep wrapped moving-average recorder or none, 1-10 calls with short "
+                       "transfers, zero lengths and errors at any call; distinct = whole case")
+    ctx.assumptions = ["durations handed to the moving average are only required to be non-negative"]
+    diff_check(ctx, "proxy", 1500, 60000, {"Base.v", "BarState.v", "BarStateProofs.v", "Proxy.v", "ProxyProofs.v", "Props/C19.v"},
+               monitor=c19_monitor)
+
+
+def c20_monitor(case, obs):
+    hdr = case[0].split()
+    for l in obs:
+        if "NaN" in l or "Inf" in l:
+            return ("a decorator printed NaN or an infinity: %s" % l, "nan-or-inf")
+        if " OTHER " in l and l.rstrip().split()[-1] == "0":
+            return ("output of a non-'f' verb does not read back: %s" % l, "other-verb-readback")
+    return None
+
+
+@check
+def check_C20(ctx):
+    ctx.cov["rule"] = ("case = one of: SizeB1024/SizeB1000 value (unit boundaries, int64 extremes, random) x verb x flag x precision; "
+                       "percentage decorator for 0<=current<=total; time styles for 0<=d<60h through the moving-average ETA; speed "
+                       "producer; sample sequences (n<=0, zero durations) through the estimators' zero-progress carry; the model "
+                       "predicts the exact string for the verbs rendered as 'f' and the exact float handed to the moving average")
+    ctx.assumptions = ["verbs e,E,g,G,b,x,X are only checked to carry the right unit and to read back; elapsed / average-speed "
+                       "decorators read the wall clock and are checked for freezing only"]
+    diff_check(ctx, "fmt", 3000, 200000, {"Base.v", "F64.v", "Percent.v", "SizeFmt.v", "SizeFmtProofs.v", "Props/C20.v"},
+               monitor=c20_monitor, classify=lambda case: case[0].split()[0])
+    # every sample reaches the moving-average decorator however deeply it is wrapped: the bar family's
+    # recorder sits behind 0-3 wrappers; only the samples are compared here
+    def samples_only(lines):
+        out = []
+        for l in lines:
+            f = l.split()
+            out.append(" ".join(f[:2] + [t for i, t in enumerate(f) if t == "S" or (i > 0 and f[i - 1] == "S") or (i > 1 and f[i - 2] == "S")]))
+        return out
+    for run in bar_runs(ctx, 600, 20000):
+        if run["rc"] != 0:
+            continue
+        bad, impl, model, cases = bar_mismatches(ctx, run, samples_only)
+        for k in bad[:1]:
+            ctx.add_violation("moving-average samples differ from the model: impl %s / model %s" % (samples_only(impl.get(k, [])), samples_only(model.get(k, []))),
+                              "ewma-samples", {"family": "bar", "case": cases[k], "impl": impl.get(k), "model": model.get(k)})
